@@ -57,6 +57,7 @@ PROBES = [
     "npy_reload", "npz_reload", "save_empty", "cross_accumulator_path", "suffix_text_in_directory",
     "accumulate_on_loaded_instance", "save_with_warnings_as_errors", "save_empty_after_loading_zero_count",
     "loaded_with_other_norm_var", "overwrite_flag_on_npy_or_raw",
+    "same_count_other_data_replaces_entry",
 ]
 FAULT_KINDS = ["prior_content_numpy_archive", "prior_content_compressed_archive", "prior_content_own_save",
                "prior_content_npy", "prior_content_raw"]
@@ -93,6 +94,24 @@ def generate(rng, tier, k):
     nops = rng.randrange(2, 13)
     used = {a: 0 for a in range(nacc)}
     saved = {}  # path -> list of keys saved (generation-time guess, only to bias loads)
+    if nacc >= 2 and rng.random() < 0.15:
+        # two different data sets with the SAME number of frames (features re-extracted from the same audio) saved one
+        # after the other to the same target / key: the second save must replace the first
+        m = rng.choice((2, 3, 5, 8))
+        m = min([m] + [accs[a]["data"]["n"] for a in (0, 1)])
+        pz = rng.choice([i for i in range(len(PATHS))])
+        key = rng.choice((None, "k1", "stats", "arr_0")) if _kind(pz) == "npz" else None
+        ow = rng.choice((True, False, False, None))
+        for a in (0, 1):
+            ops.append({"op": "acc", "a": a, "lo": 0, "hi": m, "form": rng.choice(("vec", "md", "dm")), "dtype": "float64"})
+            used[a] = m
+        for a in (0, 1):
+            op = {"op": "save", "a": a, "p": pz, "werr": False}
+            if _kind(pz) == "npz":
+                op.update(key=key, compress=rng.random() < 0.3, overwrite=ow)
+            ops.append(op)
+            saved.setdefault(pz, []).append(key)
+        ops.append({"op": "load", "p": pz, "which": "last", "pick": 0, "then_accumulate": False, "other_norm_var": False})
     for _ in range(nops):
         r = rng.random()
         a = rng.randrange(nacc)
@@ -388,6 +407,9 @@ def _run(scn, d, base, res, tr):
                 else:
                     key_used = key
                 kept = dict(kept)
+                pe = old.get(key_used)
+                if pe and pe[0] == "stats" and pe[2] != a and nrows[pe[2]] == nrows[a] and pe[1] != fp:
+                    res.probe("same_count_other_data_replaces_entry")
                 kept[key_used] = ("stats", fp, a, bool(scn["accs"][a].get("norm_var", True)), fp_sib)
                 dirm[p] = {"kind": "npz", "entries": kept, "last": key_used}
                 # observe the archive with plain numpy
@@ -406,6 +428,9 @@ def _run(scn, d, base, res, tr):
                         fail("ARCHIVE_ENTRIES", "entry %r of the archive was altered by save" % kk, phase="save", target=pk)
                         return
             else:
+                pe = (prior or {}).get("entries", {}).get(None) if existed else None
+                if pe and pe[0] == "stats" and pe[2] != a and nrows[pe[2]] == nrows[a] and pe[1] != fp:
+                    res.probe("same_count_other_data_replaces_entry")
                 dirm[p] = {"kind": pk, "entries": {None: ("stats", fp, a, bool(scn["accs"][a].get("norm_var", True)), fp_sib)},
                            "last": None}
         elif kind == "load":
